@@ -11,7 +11,7 @@
    bits.script.scriptpubkey (C08) - the Section variable [scriptpubkey] (the extraction driver instantiates it with
    the table the harness computes with its INDEPENDENT address decoder, so a wrong script is a disagreement).
 
-   The code modelled is the REPAIRED send_tx (fix: commits 76b1d46 7028915 b2620c0 68ff814 fc63e23 5a36e22 956c05d):
+   The code modelled is the REPAIRED send_tx (fix: commits a6453f8 6ab0af3 f63b97b d5fd479 99f7271 5c18f44 671eb14):
      * segwit kinds: one BIP143 message per SELECTED input, with the input's position as index and the transaction's
        version / locktime; the p2wsh scriptCode carries a CompactSize length;
      * legacy kinds: tx.legacy_sig_message per input (other scriptSigs blanked, flag semantics applied; the SIGHASH_SINGLE
